@@ -109,7 +109,7 @@ func init() {
 	for id, why := range map[string]string{
 		
 		"C06": "pending: rules not built yet",
-		"C07": "pending: rules not built yet", "C09": "pending: rules not built yet",
+		"C09": "pending: rules not built yet",
 		"C12": "pending: rules not built yet",
 		"C15": "pending: rules not built yet",
 		"C19": "pending: rules not built yet",
